@@ -881,6 +881,8 @@ class Body:
     def _comb_map(self, t):
         if t.get('name') in self._COMB and re.search(r'(option::Option|result::Result)', t.get('fn') or ''):
             return self._COMB[t['name']]
+        if t.get('name') in ('map', 'map_ok', 'map_err') and re.search(r'task::(poll::)?Poll', t.get('fn') or ''):
+            return {'Pending': 'Pending', 'Ready': 'Ready'}
         return None
     _TEST_FNS = {'is_err': ('Err', 'Ok'), 'is_ok': ('Ok', 'Err'), 'is_some': ('Some', 'None'), 'is_none': ('None', 'Some')}
 
@@ -1152,6 +1154,17 @@ class Body:
 def strip_refs(t):
     while t and t[0] in ('ref', 'deref'):
         t = t[1]
+    return t
+
+
+def deep_strip(t):
+    """the term with every ref / deref node removed at all depths (for comparing two spellings of the same place)"""
+    if isinstance(t, tuple) and t:
+        if t[0] in ('ref', 'deref') and len(t) > 1:
+            return deep_strip(t[1])
+        return tuple(deep_strip(x) for x in t)
+    if isinstance(t, list):
+        return [deep_strip(x) for x in t]
     return t
 
 
@@ -2092,6 +2105,10 @@ def simplify(t, depth=0):
         ops = [simplify(o, depth + 1) for o in t[2]]
         if any(o is NEVER for o in ops):
             return NEVER
+        if len(t) > 3 and t[3] in ('map', 'map_ok', 'map_err') and re.search(r'task::(poll::)?Poll', t[1]) and ops:
+            r0 = strip_refs(ops[0])
+            if r0 and r0[0] == 'agg' and r0[1].get('variant') == 'Pending':
+                return r0  # Poll::Pending.map(f) is Poll::Pending
         return ('call', t[1], ops) + tuple(t[3:])
     return t
 
